@@ -526,6 +526,56 @@ func checkC12(c *Ctx) {
 
 	// ---- C12.6 first match
 	r.Rule("C12.6", "weighted override-subnet loops stop at the first matching cumulative weight and use a draw independent of the percentage gate", 4)
+	// the cumulative weights are index-aligned with the subnet list they were computed from (the selection loops use
+	// the position in one to pick from the other): one entry per subnet, entry i written for subnet i
+	if f := c.P.Func(repoMod+"/"+rp, "", "processOverrideSubnetsWeights"); f != nil && f.Blocks != nil && len(f.Params) == 1 {
+		okAlign := true
+		why := ""
+		nRet := 0
+		eachInstr(f, func(in ssa.Instruction) {
+			ret, ok := in.(*ssa.Return)
+			if !ok || len(ret.Results) != 1 {
+				return
+			}
+			rv := returnedValue(ret, 0, nil)
+			if cst, isC := rv.(*ssa.Const); isC && cst.Value == nil {
+				return
+			}
+			nRet++
+			ms, isMake := stripConv(rv).(*ssa.MakeSlice)
+			if !isMake || pathOf(ms.Len) != "len("+P(f, 0)+")" {
+				okAlign = false
+				why = "the returned slice is " + firstN(pathOf(rv), 60) + ", not make([]float64, len(subnets))"
+				return
+			}
+			// written by indexed stores only (no append), each at the range index of the subnet list
+			if ms.Referrers() != nil {
+				for _, ref := range *ms.Referrers() {
+					switch x := ref.(type) {
+					case *ssa.IndexAddr:
+						if !strings.Contains(pathOf(x.Index), "rangeindex") {
+							// reads of cw[i-1] are fine; stores must use the loop index
+							if x.Referrers() != nil {
+								for _, r2 := range *x.Referrers() {
+									if _, isSt := r2.(*ssa.Store); isSt {
+										okAlign = false
+										why = "an entry is stored at " + firstN(pathOf(x.Index), 40) + ", not at the subnet's own index"
+									}
+								}
+							}
+						}
+					case *ssa.Call:
+						if b, isB := x.Call.Value.(*ssa.Builtin); isB && b.Name() == "append" {
+							okAlign = false
+							why = "entries are appended"
+						}
+					}
+				}
+			}
+		})
+		r.Check(okAlign && nRet > 0, "C12.6", "processOverrideSubnetsWeights: one cumulative weight per subnet, at the subnet's index", f.Pos(), fnName(f), "make([]float64, len(subnets)); cw[i] written in the loop over subnets",
+			"the cumulative weights are no longer aligned with the subnet list ("+why+"): the selection loops use a position in the weights to index the subnets, so a different subnet than the one whose weight matched is used - disabled (zero-weight) subnets are chosen and active ones never are")
+	}
 	if f := c.fn("C12.6", rp, "RegProcessor", "processBdReq"); f != nil {
 		n := 0
 		for _, b := range f.Blocks {
@@ -701,6 +751,46 @@ func checkC12(c *Ctx) {
 				} else {
 					r.OK("C12.7", "processBdReq: exclusion loop precedes the address override", ov.Pos(), "must-pass")
 				}
+			}
+			// every configured exclusion is consulted: from the top of the loop body the Contains test is reached
+			// whatever else the body tests first (an entry that is skipped - by transport label, weight, anything -
+			// is an exclusion that does not exclude)
+			var body *ssa.BasicBlock
+			for _, b := range f.Blocks {
+				for _, in := range b.Instrs {
+					if nx, ok := in.(*ssa.Next); ok && len(b.Succs) == 2 {
+						if rg, ok := nx.Iter.(*ssa.Range); ok && strings.HasSuffix(pathOf(rg.X), ".exclusionsFromOverride") {
+							body = b.Succs[0]
+						}
+					}
+				}
+				// index-based loops over the slice: the block that loads the element
+				if body == nil {
+					for _, in := range b.Instrs {
+						if ia, ok := in.(*ssa.IndexAddr); ok && strings.HasSuffix(pathOf(ia.X), ".exclusionsFromOverride") && b.Dominates(containsIf.Block()) {
+							body = b
+						}
+					}
+				}
+			}
+			if body == nil {
+				r.Unk("C12.7", "processBdReq: exclusion loop body", f.Pos(), fnName(f), "loop over exclusionsFromOverride not found")
+			} else {
+				var extra []string
+				all := reachGameFrom(f, body, containsIf, func(bl *ssa.BasicBlock) int {
+					iff, ok := bl.Instrs[len(bl.Instrs)-1].(*ssa.If)
+					if !ok || iff == containsIf {
+						return gameAny
+					}
+					if hit, _ := reachAt(f, bl, isInstr(containsIf), nil, nil); !hit {
+						return gameAny
+					}
+					c2, _ := normCond(iff.Cond)
+					extra = append(extra, c2)
+					return gameAll
+				})
+				r.Check(all, "C12.7", "processBdReq: every exclusion entry is tested against the phantom", containsIf.Pos(), fnName(f), "the Contains test is reached from the top of the loop body whatever else is tested",
+					"an exclusion entry can be skipped before its subnet is compared with the phantom ("+firstN(strings.Join(uniq(sortedCopy(extra)), ", "), 120)+"): a phantom inside that excluded subnet is replaced by an override address after all")
 			}
 			cnd, pol := normCond(containsIf.Cond)
 			_ = cnd
